@@ -116,12 +116,13 @@ func (r *redisStore) SetTokenResponse(ctx context.Context, sessionID string, tok
 		}
 	}
 
-	now := r.clock.Now()
-	if err := r.client.HSetNX(ctx, sessionID, keyTimeAdded, now).Err(); err != nil {
+	if err := r.client.HSetNX(ctx, sessionID, keyTimeAdded, r.clock.Now()).Err(); err != nil {
 		return err
 	}
 
-	return r.refreshExpiration(ctx, sessionID, now)
+	// The creation time is whatever is stored (HSetNX keeps an existing value): the absolute
+	// timeout must be counted from there, not from the time of this write.
+	return r.refreshExpiration(ctx, sessionID, time.Time{})
 }
 
 func (r *redisStore) GetTokenResponse(ctx context.Context, sessionID string) (*TokenResponse, error) {
@@ -173,12 +174,13 @@ func (r *redisStore) SetAuthorizationState(ctx context.Context, sessionID string
 		return err
 	}
 
-	now := r.clock.Now()
-	if err := r.client.HSetNX(ctx, sessionID, keyTimeAdded, now).Err(); err != nil {
+	if err := r.client.HSetNX(ctx, sessionID, keyTimeAdded, r.clock.Now()).Err(); err != nil {
 		return err
 	}
 
-	return r.refreshExpiration(ctx, sessionID, now)
+	// The creation time is whatever is stored (HSetNX keeps an existing value): the absolute
+	// timeout must be counted from there, not from the time of this write.
+	return r.refreshExpiration(ctx, sessionID, time.Time{})
 }
 
 func (r *redisStore) GetAuthorizationState(ctx context.Context, sessionID string) (*AuthorizationState, error) {
